@@ -54,19 +54,30 @@ Theorem c11_history_independent : forall (cell_init : cell -> N) (env : N) hist 
 Proof. exact history_independent. Qed.
 Print Assumptions c11_history_independent.
 
-(* Full statement including the debug API (false, F10h): histories may also call debug::log_start / log_finish.
-   Refuted: log_start while a log is active panics under the write lock; the poisoned lock makes every later
-   compilation panic at its first log call. *)
-Theorem c11_history_with_log_api_refuted :
-  exists hist p, compile_only p /\
+(* The debug API (debug::log_start / log_finish) between compilations: since the F10x repair log_start no longer
+   asserts under the lock (F10h fixed), so ANY history of batches of compilations (any schedule, complete or cut
+   short) with API calls between the batches leaves a later compilation unaffected. *)
+Theorem c11_history_with_log_api_independent : forall (cell_init : cell -> N) (env : N) hist p sched t,
+  Forall hitem_ok hist -> compile_only p ->
+  let g := fold_left (hstep cell_init env) hist g_init in
+  nth_error (snd (run cell_init env g [spawn p] sched)) 0 = Some t -> finished t = true ->
+  t_reads t = expected_reads cell_init env p /\ t_panicked t = false.
+Proof. exact history_with_api_independent. Qed.
+Print Assumptions c11_history_with_log_api_independent.
+
+(* Full statement with the API used CONCURRENTLY with a compilation (false, F10j): restarting the log while a
+   compilation holds a LogSuppressLock makes its Drop underflow suppress_count under the write lock; the lock is
+   poisoned and the compilation panics at its next log call.  Thread 0 starts a log, thread 1 is the compilation
+   (load_std_lib: suppress; ...; drop; log entry), thread 2 restarts the log in between. *)
+Theorem c11_concurrent_log_restart_refuted :
+  exists progs sched t, compile_only (nth 1 progs []) /\
     let ci := fun _ : cell => 0%N in
-    let g := fst (run ci 0%N g_init [spawn hist] (repeat 0 (length hist))) in
-    exists t, nth_error (snd (run ci 0%N g [spawn p] (repeat 0 (length p)))) 0 = Some t /\ t_panicked t = true.
+    nth_error (snd (run ci 0%N g_init (map spawn progs) sched)) 1 = Some t /\ t_panicked t = true.
 Proof.
-  exists [SLogStart; SLogStart], [SLogEntry 0%N; SGetOrInit CStd]. split; [reflexivity|].
-  eexists. split; vm_compute; reflexivity.
+  exists [[SLogStart]; [SSuppressInc; SSuppressDec; SLogEntry 0%N]; [SLogFinish; SLogStart]], [0; 1; 2; 2; 1; 1]%nat.
+  eexists. split; [reflexivity|]. split; vm_compute; reflexivity.
 Qed.
-Print Assumptions c11_history_with_log_api_refuted.
+Print Assumptions c11_concurrent_log_restart_refuted.
 
 (* ---- hash-map iteration: generic pattern lemmas ---- *)
 Theorem c11_perm_invariant_sort : forall (A : Type) (leb : A -> A -> bool),
@@ -142,67 +153,106 @@ Theorem c11_perm_invariant_linearize_tree : forall (Content : Type) (l l' : list
 Proof. exact perm_invariant_sort_by_key. Qed.
 Print Assumptions c11_perm_invariant_linearize_tree.
 
-(* Full statement (false): forall site f, Permutation l l' -> f l = f l'.  Refuted for seven sites, each with
-   the partial statement "with at most one candidate the result does not depend on the order". *)
+(* ---- the sites repaired by 9396557 (were F10, F10b..F10g, F10i): full-strength statements ---- *)
 
-(* F10: resolver/functions.rs apply_args_to_closure: named_args.into_iter().next() *)
-Theorem c11_apply_args_to_closure_refuted : exists l l' : list nat, Permutation l l' /\ head_of nat l <> head_of nat l'.
+(* resolver/functions.rs apply_args_to_closure: named_args.into_keys().min() -- the first element of the sorted names *)
+Theorem c11_perm_invariant_apply_args_to_closure : forall (A : Type) (leb : A -> A -> bool),
+  (forall x y, leb x y = true \/ leb y x = true) ->
+  (forall x y z, leb x y = true -> leb y z = true -> leb x z = true) ->
+  forall l l', (forall x y, In x l -> In y l -> leb x y = true -> leb y x = true -> x = y) ->
+  Permutation l l' -> head_of A (isort A leb l) = head_of A (isort A leb l').
+Proof. intros A leb Ht Htr l l' Ha HP. f_equal. apply perm_invariant_sort; assumption. Qed.
+Print Assumptions c11_perm_invariant_apply_args_to_closure.
+
+(* parser/stmt.rs query_def: args.keys().sorted().map(fmt).join(", ") *)
+Theorem c11_perm_invariant_text_of_sorted : forall (A B : Type) (leb : A -> A -> bool) (fmt : A -> list B),
+  (forall x y, leb x y = true \/ leb y x = true) ->
+  (forall x y z, leb x y = true -> leb y z = true -> leb x z = true) ->
+  forall l l', (forall x y, In x l -> In y l -> leb x y = true -> leb y x = true -> x = y) ->
+  Permutation l l' -> concat_in_order A fmt (isort A leb l) = concat_in_order A fmt (isort A leb l').
+Proof. intros A B leb fmt Ht Htr l l' Ha HP. f_equal. apply perm_invariant_sort; assumption. Qed.
+Print Assumptions c11_perm_invariant_text_of_sorted.
+
+(* codegen/ast.rs: named arguments (distinct names) sorted by name, then printed *)
+Theorem c11_perm_invariant_text_of_sorted_by_key : forall (V B : Type) (fmt : nat * V -> list B) l l',
+  NoDup (map fst l) -> Permutation l l' ->
+  concat_in_order _ fmt (isort _ (key_leb V) l) = concat_in_order _ fmt (isort _ (key_leb V) l').
+Proof. intros V B fmt l l'. apply (perm_invariant_after_sort_by_key (concat_in_order _ fmt)). Qed.
+Print Assumptions c11_perm_invariant_text_of_sorted_by_key.
+
+(* semantic/ast_expand.rs: .sorted_by(name).map(expand).try_collect() *)
+Theorem c11_perm_invariant_named_args_first_error : forall (V E : Type) (f : nat * V -> option E) l l',
+  NoDup (map fst l) -> Permutation l l' ->
+  first_error _ f (isort _ (key_leb V) l) = first_error _ f (isort _ (key_leb V) l').
+Proof. intros V E f l l'. apply (perm_invariant_after_sort_by_key (first_error _ f)). Qed.
+Print Assumptions c11_perm_invariant_named_args_first_error.
+
+(* sql/pq/postprocess.rs alias_last_sorting: column declarations (distinct ids) sorted by id, then the
+   (referenced column -> alias) map is collected; repeated referenced columns are resolved by that fixed order *)
+Theorem c11_perm_invariant_alias_last_sorting : forall k (l l' : list (nat * (nat * nat))),
+  NoDup (map fst l) -> Permutation l l' ->
+  lookup_last k (map snd (isort _ (key_leb _) l)) = lookup_last k (map snd (isort _ (key_leb _) l')).
+Proof. intros k l l'. apply (perm_invariant_after_sort_by_key (fun s => lookup_last k (map snd s))). Qed.
+Print Assumptions c11_perm_invariant_alias_last_sorting.
+
+(* postprocess.rs: relation_instances.iter_mut().filter(source == cte.tid).min_by_key(riid) *)
+Theorem c11_perm_invariant_cte_instance : forall (V : Type) (p : nat * V -> bool) l l',
+  NoDup (map fst l) -> Permutation l l' ->
+  hd_error (isort _ (key_leb V) (filter p l)) = hd_error (isort _ (key_leb V) (filter p l')).
+Proof. exact @perm_invariant_filter_min_by_key. Qed.
+Print Assumptions c11_perm_invariant_cte_instance.
+
+(* parser.rs linearize_tree: sources.keys().sorted().find(starts_with_uppercase) *)
+Theorem c11_perm_invariant_root_choice : forall (A : Type) (leb : A -> A -> bool) (p : A -> bool),
+  (forall x y, leb x y = true \/ leb y x = true) ->
+  (forall x y z, leb x y = true -> leb y z = true -> leb x z = true) ->
+  forall l l', (forall x y, In x l -> In y l -> leb x y = true -> leb y x = true -> x = y) ->
+  Permutation l l' -> find_first A p (isort A leb l) = find_first A p (isort A leb l').
+Proof. intros A leb p Ht Htr l l' Ha HP. f_equal. apply perm_invariant_sort; assumption. Qed.
+Print Assumptions c11_perm_invariant_root_choice.
+
+(* resolver/names.rs collect_columns_in_module: sorted_by((order, ident)) -- a total order, antisymmetric on the
+   (distinct) declarations of one module: an instance of c11_perm_invariant_sort *)
+Theorem c11_perm_invariant_available_columns : forall (A : Type) (leb : A -> A -> bool),
+  (forall x y, leb x y = true \/ leb y x = true) ->
+  (forall x y z, leb x y = true -> leb y z = true -> leb x z = true) ->
+  forall l l', (forall x y, In x l -> In y l -> leb x y = true -> leb y x = true -> x = y) ->
+  Permutation l l' -> isort A leb l = isort A leb l'.
+Proof. exact perm_invariant_sort. Qed.
+Print Assumptions c11_perm_invariant_available_columns.
+
+(* ---- LIBRARY LEMMAS (describe no reachable site of the current tree): the order-sensitive operations really are
+   order-sensitive, i.e. the sorts / minima introduced by the repair are needed.  first_error is still the shape of
+   ir/pl/fold.rs fold_func_call (latent), sort-by-shared-key that of construct_tuple_from_module if two
+   declarations ever shared an `order`. ---- *)
+Theorem c11_lib_head_of_order_dependent : exists l l' : list nat, Permutation l l' /\ head_of nat l <> head_of nat l'.
 Proof. exact head_of_refuted. Qed.
-Print Assumptions c11_apply_args_to_closure_refuted.
-Theorem c11_apply_args_to_closure_partial : forall (A : Type) (l l' : list A),
-  (length l <= 1)%nat -> Permutation l l' -> head_of A l = head_of A l'.
-Proof. intros A l l'. apply (perm_invariant_at_most_one A (head_of A)). Qed.
-Print Assumptions c11_apply_args_to_closure_partial.
+Print Assumptions c11_lib_head_of_order_dependent.
 
-(* F10b / F10c: parser/stmt.rs query_def (unknown header arguments) and codegen/ast.rs (named arguments):
-   text produced in iteration order *)
-Theorem c11_concat_in_order_refuted :
+Theorem c11_lib_concat_in_order_order_dependent :
   exists l l' : list nat, Permutation l l' /\ concat_in_order nat (fun x => [x]) l <> concat_in_order nat (fun x => [x]) l'.
 Proof. exact concat_in_order_refuted. Qed.
-Print Assumptions c11_concat_in_order_refuted.
-Theorem c11_concat_in_order_partial : forall (A B : Type) (fmt : A -> list B) (l l' : list A),
-  (length l <= 1)%nat -> Permutation l l' -> concat_in_order A fmt l = concat_in_order A fmt l'.
-Proof. intros A B fmt l l'. apply (perm_invariant_at_most_one A (concat_in_order A fmt)). Qed.
-Print Assumptions c11_concat_in_order_partial.
+Print Assumptions c11_lib_concat_in_order_order_dependent.
 
-(* F10e: semantic/ast_expand.rs (and ir/pl/fold.rs): try_collect over named arguments *)
-Theorem c11_named_args_first_error_refuted :
+Theorem c11_lib_first_error_order_dependent :
   exists l l' : list nat, Permutation l l' /\ first_error nat (fun x => Some x) l <> first_error nat (fun x => Some x) l'.
 Proof. exact first_error_refuted. Qed.
-Print Assumptions c11_named_args_first_error_refuted.
-Theorem c11_named_args_first_error_partial : forall (A E : Type) (f : A -> option E) (l l' : list A),
-  (length l <= 1)%nat -> Permutation l l' -> first_error A f l = first_error A f l'.
-Proof. intros A E f l l'. apply (perm_invariant_at_most_one A (first_error A f)). Qed.
-Print Assumptions c11_named_args_first_error_partial.
+Print Assumptions c11_lib_first_error_order_dependent.
 
-(* F10d: sql/pq/postprocess.rs alias_last_sorting: column -> alias map collected with a repeated key *)
-Theorem c11_alias_last_sorting_refuted :
+Theorem c11_lib_lookup_last_order_dependent :
   exists l l' : list (nat * nat), Permutation l l' /\ lookup_last 0 l <> lookup_last 0 l'.
 Proof. exact lookup_last_refuted. Qed.
-Print Assumptions c11_alias_last_sorting_refuted.
-(* partial: with pairwise distinct referenced columns the alias map is order-independent *)
-Theorem c11_alias_last_sorting_partial : forall k (l l' : list (nat * nat)),
-  NoDup (map fst l) -> Permutation l l' -> lookup_last k l = lookup_last k l'.
-Proof. intros k l l'. apply perm_invariant_lookup. Qed.
-Print Assumptions c11_alias_last_sorting_partial.
+Print Assumptions c11_lib_lookup_last_order_dependent.
 
-(* F10f / F10g: postprocess.rs relation_instances.iter_mut().find(..) with two instances of one CTE;
-   parser.rs linearize_tree sources.keys().find(starts_with_uppercase) with two candidates *)
-Theorem c11_find_first_refuted :
+Theorem c11_lib_find_first_order_dependent :
   exists l l' : list nat, Permutation l l' /\ find_first nat (fun _ => true) l <> find_first nat (fun _ => true) l'.
 Proof. exact find_first_refuted. Qed.
-Print Assumptions c11_find_first_refuted.
-Theorem c11_find_first_partial : forall (A : Type) (p : A -> bool) l l',
-  (forall x y, In x l -> In y l -> p x = true -> p y = true -> x = y) ->
-  Permutation l l' -> find_first A p l = find_first A p l'.
-Proof. exact perm_invariant_find_unique. Qed.
-Print Assumptions c11_find_first_partial.
+Print Assumptions c11_lib_find_first_order_dependent.
 
-(* the `distinct orders / distinct keys` side condition of the sort-by-key sites is necessary *)
-Theorem c11_sort_by_key_needs_distinct_keys :
+Theorem c11_lib_sort_by_shared_key_order_dependent :
   exists l l' : list (nat * nat), Permutation l l' /\ isort _ (key_leb nat) l <> isort _ (key_leb nat) l'.
 Proof. exact sort_by_key_dup_refuted. Qed.
-Print Assumptions c11_sort_by_key_needs_distinct_keys.
+Print Assumptions c11_lib_sort_by_shared_key_order_dependent.
 
 (* non-vacuity *)
 Example c11_ex_sort : isort _ (key_leb nat) [(2, 0); (1, 5); (3, 7)] = isort _ (key_leb nat) [(3, 7); (2, 0); (1, 5)].
